@@ -34,7 +34,22 @@ func parsedKeys(b biscuit.ParsedBlock) (facts, rules, checks []string, err error
 // splitCode returns the element lines of one entry of Biscuit.Code().
 func splitCode(code string) []string {
 	var out []string
-	lines := strings.Split(code, "\n")
+	// elements are separated by line breaks; a line break inside a string literal belongs to the
+	// literal (strings of the domain hold no quote, so quote parity tells inside from outside)
+	var lines []string
+	start, inQuote := 0, false
+	for i := 0; i < len(code); i++ {
+		switch code[i] {
+		case '"':
+			inQuote = !inQuote
+		case '\n':
+			if !inQuote {
+				lines = append(lines, code[start:i])
+				start = i + 1
+			}
+		}
+	}
+	lines = append(lines, code[start:])
 	for i, l := range lines {
 		l = strings.TrimSpace(l)
 		if i == 0 && strings.HasPrefix(l, "Block {") {
